@@ -912,6 +912,25 @@ func setAndReturnBodyLimitInterruption(tx *Transaction, status int) (*types.Inte
 	return tx.interruption, 0, nil
 }
 
+// requestBodyLimitAction is the request body limit action in force for this transaction. While the
+// engine is DetectionOnly (also when switched by ctl:ruleEngine) a body reaching the limit must not
+// interrupt, so Reject behaves like ProcessPartial, as coraza.NewWAF enforces for a configured
+// DetectionOnly engine.
+func (tx *Transaction) requestBodyLimitAction() types.BodyLimitAction {
+	if tx.RuleEngine == types.RuleEngineDetectionOnly {
+		return types.BodyLimitActionProcessPartial
+	}
+	return tx.WAF.RequestBodyLimitAction
+}
+
+// responseBodyLimitAction is the response body counterpart of requestBodyLimitAction.
+func (tx *Transaction) responseBodyLimitAction() types.BodyLimitAction {
+	if tx.RuleEngine == types.RuleEngineDetectionOnly {
+		return types.BodyLimitActionProcessPartial
+	}
+	return tx.WAF.ResponseBodyLimitAction
+}
+
 // remainingBodyBytes returns how many more bytes fit below limit. It is never negative:
 // ctl:requestBodyLimit / ctl:responseBodyLimit may lower the limit below what is already buffered.
 func remainingBodyBytes(limit, buffered int64) int64 {
@@ -936,11 +955,11 @@ func (tx *Transaction) WriteRequestBody(b []byte) (*types.Interruption, int, err
 	if tx.RequestBodyLimit == tx.requestBodyBuffer.length {
 		// tx.RequestBodyLimit will never be zero so if this happened, we have an
 		// interruption (that has been previously raised, but ignored by the connector) for sure.
-		if tx.WAF.RequestBodyLimitAction == types.BodyLimitActionReject {
+		if tx.requestBodyLimitAction() == types.BodyLimitActionReject {
 			return tx.interruption, 0, nil
 		}
 
-		if tx.WAF.RequestBodyLimitAction == types.BodyLimitActionProcessPartial {
+		if tx.requestBodyLimitAction() == types.BodyLimitActionProcessPartial {
 			return nil, 0, nil
 		}
 	}
@@ -958,12 +977,12 @@ func (tx *Transaction) WriteRequestBody(b []byte) (*types.Interruption, int, err
 
 	if tx.requestBodyBuffer.length+writingBytes >= tx.RequestBodyLimit {
 		tx.variables.inboundDataError.Set("1")
-		if tx.WAF.RequestBodyLimitAction == types.BodyLimitActionReject {
+		if tx.requestBodyLimitAction() == types.BodyLimitActionReject {
 			// We interrupt this transaction in case RequestBodyLimitAction is Reject
 			return setAndReturnBodyLimitInterruption(tx, 413)
 		}
 
-		if tx.WAF.RequestBodyLimitAction == types.BodyLimitActionProcessPartial {
+		if tx.requestBodyLimitAction() == types.BodyLimitActionProcessPartial {
 			writingBytes = remainingBodyBytes(tx.RequestBodyLimit, tx.requestBodyBuffer.length)
 			runProcessRequestBody = true
 		}
@@ -1001,11 +1020,11 @@ func (tx *Transaction) ReadRequestBodyFrom(r io.Reader) (*types.Interruption, in
 	if tx.RequestBodyLimit == tx.requestBodyBuffer.length {
 		// tx.RequestBodyLimit will never be zero so if this happened, we have an
 		// interruption (that has been previously raised, but ignored by the connector) for sure.
-		if tx.WAF.RequestBodyLimitAction == types.BodyLimitActionReject {
+		if tx.requestBodyLimitAction() == types.BodyLimitActionReject {
 			return tx.interruption, 0, nil
 		}
 
-		if tx.WAF.RequestBodyLimitAction == types.BodyLimitActionProcessPartial {
+		if tx.requestBodyLimitAction() == types.BodyLimitActionProcessPartial {
 			return nil, 0, nil
 		}
 	}
@@ -1024,11 +1043,11 @@ func (tx *Transaction) ReadRequestBodyFrom(r io.Reader) (*types.Interruption, in
 		}
 		if tx.requestBodyBuffer.length+writingBytes >= tx.RequestBodyLimit {
 			tx.variables.inboundDataError.Set("1")
-			if tx.WAF.RequestBodyLimitAction == types.BodyLimitActionReject {
+			if tx.requestBodyLimitAction() == types.BodyLimitActionReject {
 				return setAndReturnBodyLimitInterruption(tx, 413)
 			}
 
-			if tx.WAF.RequestBodyLimitAction == types.BodyLimitActionProcessPartial {
+			if tx.requestBodyLimitAction() == types.BodyLimitActionProcessPartial {
 				writingBytes = remainingBodyBytes(tx.RequestBodyLimit, tx.requestBodyBuffer.length)
 				runProcessRequestBody = true
 			}
@@ -1044,11 +1063,11 @@ func (tx *Transaction) ReadRequestBodyFrom(r io.Reader) (*types.Interruption, in
 
 	if tx.requestBodyBuffer.length == tx.RequestBodyLimit {
 		tx.variables.inboundDataError.Set("1")
-		if tx.WAF.RequestBodyLimitAction == types.BodyLimitActionReject {
+		if tx.requestBodyLimitAction() == types.BodyLimitActionReject {
 			return setAndReturnBodyLimitInterruption(tx, 413)
 		}
 
-		if tx.WAF.RequestBodyLimitAction == types.BodyLimitActionProcessPartial {
+		if tx.requestBodyLimitAction() == types.BodyLimitActionProcessPartial {
 			runProcessRequestBody = true
 		}
 	}
@@ -1213,11 +1232,11 @@ func (tx *Transaction) WriteResponseBody(b []byte) (*types.Interruption, int, er
 	if tx.ResponseBodyLimit == tx.responseBodyBuffer.length {
 		// tx.ResponseBodyLimit will never be zero so if this happened, we have an
 		// interruption for sure.
-		if tx.WAF.ResponseBodyLimitAction == types.BodyLimitActionReject {
+		if tx.responseBodyLimitAction() == types.BodyLimitActionReject {
 			return tx.interruption, 0, nil
 		}
 
-		if tx.WAF.ResponseBodyLimitAction == types.BodyLimitActionProcessPartial {
+		if tx.responseBodyLimitAction() == types.BodyLimitActionProcessPartial {
 			return nil, 0, nil
 		}
 	}
@@ -1228,12 +1247,12 @@ func (tx *Transaction) WriteResponseBody(b []byte) (*types.Interruption, int, er
 	)
 	if tx.responseBodyBuffer.length+writingBytes >= tx.ResponseBodyLimit {
 		tx.variables.outboundDataError.Set("1")
-		if tx.WAF.ResponseBodyLimitAction == types.BodyLimitActionReject {
+		if tx.responseBodyLimitAction() == types.BodyLimitActionReject {
 			// We interrupt this transaction in case ResponseBodyLimitAction is Reject
 			return setAndReturnBodyLimitInterruption(tx, 500)
 		}
 
-		if tx.WAF.ResponseBodyLimitAction == types.BodyLimitActionProcessPartial {
+		if tx.responseBodyLimitAction() == types.BodyLimitActionProcessPartial {
 			writingBytes = remainingBodyBytes(tx.ResponseBodyLimit, tx.responseBodyBuffer.length)
 			runProcessResponseBody = true
 		}
@@ -1262,11 +1281,11 @@ func (tx *Transaction) ReadResponseBodyFrom(r io.Reader) (*types.Interruption, i
 	}
 
 	if tx.ResponseBodyLimit == tx.responseBodyBuffer.length {
-		if tx.WAF.ResponseBodyLimitAction == types.BodyLimitActionReject {
+		if tx.responseBodyLimitAction() == types.BodyLimitActionReject {
 			return tx.interruption, 0, nil
 		}
 
-		if tx.WAF.ResponseBodyLimitAction == types.BodyLimitActionProcessPartial {
+		if tx.responseBodyLimitAction() == types.BodyLimitActionProcessPartial {
 			return nil, 0, nil
 		}
 	}
@@ -1279,11 +1298,11 @@ func (tx *Transaction) ReadResponseBodyFrom(r io.Reader) (*types.Interruption, i
 		writingBytes = int64(l.Len())
 		if tx.responseBodyBuffer.length+writingBytes >= tx.ResponseBodyLimit {
 			tx.variables.outboundDataError.Set("1")
-			if tx.WAF.ResponseBodyLimitAction == types.BodyLimitActionReject {
+			if tx.responseBodyLimitAction() == types.BodyLimitActionReject {
 				return setAndReturnBodyLimitInterruption(tx, 500)
 			}
 
-			if tx.WAF.ResponseBodyLimitAction == types.BodyLimitActionProcessPartial {
+			if tx.responseBodyLimitAction() == types.BodyLimitActionProcessPartial {
 				writingBytes = remainingBodyBytes(tx.ResponseBodyLimit, tx.responseBodyBuffer.length)
 				runProcessResponseBody = true
 			}
@@ -1299,11 +1318,11 @@ func (tx *Transaction) ReadResponseBodyFrom(r io.Reader) (*types.Interruption, i
 
 	if tx.responseBodyBuffer.length == tx.ResponseBodyLimit {
 		tx.variables.outboundDataError.Set("1")
-		if tx.WAF.ResponseBodyLimitAction == types.BodyLimitActionReject {
+		if tx.responseBodyLimitAction() == types.BodyLimitActionReject {
 			return setAndReturnBodyLimitInterruption(tx, 500)
 		}
 
-		if tx.WAF.ResponseBodyLimitAction == types.BodyLimitActionProcessPartial {
+		if tx.responseBodyLimitAction() == types.BodyLimitActionProcessPartial {
 			runProcessResponseBody = true
 		}
 	}
